@@ -261,7 +261,11 @@ def opTrace (mode evs : String) : String :=
   match (toks.mapM parseTEvs).map List.flatten with
   | some es =>
     let sync := mode == "sync"
-    let mevs := es.filterMap (fun e => match e with | .m x => some x | _ => none)
+    let mevs := es.filterMap (fun e => match e with
+      | .m x => some x
+      | .ret id "nil" => if sync then some (.ret id true) else none
+      | .ret id "fail" => if sync then some (.ret id false) else none
+      | _ => none)
     let acc := match cfirstReject {} mevs 0 with
       | none => "ok"
       | some (i, s) => s!"reject@{i}-of-model-events:{showLPC s.pc}"
